@@ -320,11 +320,8 @@ Theorem C17_encoding :
   (forall m v, m <> 0 -> in_i16 v -> ValueOf (SetValue m v) = v) /\
   (forall v, SetValue 0 v = 0).
 Proof.
-  repeat split; intros.
-  all: try (apply encode_fields; assumption).
-  all: try (apply encode_fields_novalue; assumption).
-  - apply set_value_move_part.
-  - apply set_value_value; assumption.
+  split; [exact encode_fields|]. split; [exact encode_fields_novalue|].
+  split; [exact set_value_move_part|]. split; [exact set_value_value|exact set_value_none].
 Qed.
 
 Print Assumptions C17_encoding.
